@@ -612,8 +612,11 @@ class HistogramBase(abc.ABC):
 
         new_shape = list(self.shape)
         new_shape[axis] = new_size
-        new_frequencies = np.zeros(new_shape, dtype=self._frequencies.dtype)
-        new_errors2 = np.zeros(new_shape, dtype=self._frequencies.dtype)
+        # Merged bins are summed in 64 bits: the sums need not fit a narrow content type
+        dtype = self._frequencies.dtype
+        wide_dtype = np.promote_types(dtype, np.int64 if dtype.kind in "iu" else np.float64)
+        new_frequencies = np.zeros(new_shape, dtype=wide_dtype)
+        new_errors2 = np.zeros(new_shape, dtype=wide_dtype)
         self._apply_bin_map(
             old_frequencies=self._frequencies,
             new_frequencies=new_frequencies,
@@ -622,6 +625,14 @@ class HistogramBase(abc.ABC):
             bin_map=bin_map,
             axis=axis,
         )
+        if wide_dtype != dtype:
+            type_info = np.iinfo(dtype) if dtype.kind in "iu" else np.finfo(dtype)
+            if max(new_frequencies.max(initial=0), new_errors2.max(initial=0)) > type_info.max:
+                # Keep the exact sums, in the wider type
+                self.set_dtype(wide_dtype)
+            else:
+                new_frequencies = new_frequencies.astype(dtype)
+                new_errors2 = new_errors2.astype(dtype)
         self._frequencies = new_frequencies
         self._errors2 = new_errors2
 
